@@ -48,9 +48,14 @@ EXTENDS WireOps
 (*                   host is there, with the namespace components that are   *)
 (*                   there (none without a namespace or with                 *)
 (*                   ignore_namespace)                                       *)
+(*   "ns_shared"     the LOCALNAMESPACEPATH element of a namespace is built   *)
+(*                   once and shared ("cached"): a DOM node has ONE parent,  *)
+(*                   so of several paths of one document that lie in the     *)
+(*                   same namespace only the one built last keeps it         *)
 Pinned == {"export_path", "real_repr", "scope_any"}
 Flags == Pinned \cup {"keephost", "hdr_before_default", "minst_order",
-                      "ns_drop_empty", "wrap_host_first", "name_host_first"}
+                      "ns_drop_empty", "wrap_host_first", "name_host_first",
+                      "ns_shared"}
 
 Arg(f, kb, pr, x) == [f |-> f, kb |-> kb, pr |-> pr, x |-> x]
 A0(f) == Arg(f, <<>>, <<>>, <<>>)
@@ -183,15 +188,21 @@ RefSpec(sh) ==
     [] sh = "refdo"  -> R("i", "in", "", "refo")      \* paths at depth 2
     [] sh = "refdh"  -> R("i", "in", "", "refh")
     [] sh = "refhdo" -> R("i", "in_ns_h", "r", "refo")
+    [] sh = "reflo"  -> R("i", "in_ns", "o", "")      \* coinciding namespaces:
+    [] sh = "refho"  -> R("i", "in_ns_h", "o", "")    \* see "coincidence" below
+    [] sh = "refld"  -> R("i", "in_ns", "d2", "")
+    [] sh = "refll"  -> R("i", "in_ns", "r", "refl")
     [] sh = "refc"   -> R("c", "cn", "", "")
     [] sh = "refcl"  -> R("c", "cn_ns", "r", "")
     [] sh = "refco"  -> R("c", "cn_h", "", "")
     [] sh = "refch"  -> R("c", "cn_ns_h", "r", "")
     [] sh = "refcle" -> R("c", "cn_ns", "re", "")
+    [] sh = "refcld" -> R("c", "cn_ns", "d2", "")
 
 InstRefShapes == {"ref", "refl", "refo", "refh", "refle", "reflg", "refhe",
-                  "refdo", "refdh", "refhdo"}
-ClassRefShapes == {"refc", "refcl", "refco", "refch", "refcle"}
+                  "refdo", "refdh", "refhdo", "reflo", "refho", "refld",
+                  "refll"}
+ClassRefShapes == {"refc", "refcl", "refco", "refch", "refcle", "refcld"}
 RefShapes == InstRefShapes \cup ClassRefShapes
 
 RECURSIVE RefTarget(_)
@@ -760,6 +771,84 @@ ExportReq(c, Variant) ==
    hdr |-> [method |-> "exportindication", form |-> "none", ns |-> <<>>,
             cls |-> "", keys |-> <<>>]]
 
+(* ---- coincidence of namespaces ---------------------------------------------------------- *)
+(* One document may hold several paths, and two of them may lie in the SAME  *)
+(* namespace: the path of an association instance and its reference keys /   *)
+(* reference properties (what a server returns for ReferenceNames, and what  *)
+(* goes back to it in GetInstance / ModifyInstance / DeleteInstance), the    *)
+(* target namespace of a request and a reference key / property / method     *)
+(* parameter pointing into it, two references side by side, a reference and  *)
+(* the reference nested in its key.  A namespace id (NsTok) denotes a VALUE:  *)
+(* the same id at two places of a case is the same namespace (the harness    *)
+(* spells it identically; in the thorough tier also differing in lexical     *)
+(* case only, the projection case-folds).  Every LOCALNAMESPACEPATH of a     *)
+(* document has a role (where its path stands):                              *)
+(*   target  the namespace the request is directed to (IMETHODCALL's own,    *)
+(*           the local path of METHODCALL)                                   *)
+(*   path    the path of the object itself (a name that is written, the      *)
+(*           path of an instance with its wrapper)                           *)
+(*   key / prop / param   a reference value in a keybinding / reference      *)
+(*           property / method parameter (the innermost such place)          *)
+(* CoinPairs(t) = the sets of roles {r1, r2} of two LOCALNAMESPACEPATH        *)
+(* elements of t that carry the same namespace ({r}: both in role r).        *)
+NsRoles == {"target", "path", "key", "prop", "param"}
+RECURSIVE NsOccs(_, _)
+NsOccs(t, role) ==
+  IF t.t = "LOCALNAMESPACEPATH"
+  THEN <<[role |-> role, ns |-> [i \in DOMAIN t.c |-> AttrVal(t.c[i], "NAME")]]>>
+  ELSE LET r == CASE t.t \in {"IMETHODCALL", "METHODCALL"} -> "target"
+                  [] t.t \in {"IPARAMVALUE", "EXPPARAMVALUE"} -> "path"
+                  [] t.t = "KEYBINDING" -> "key"
+                  [] t.t = "PROPERTY.REFERENCE" -> "prop"
+                  [] t.t = "PARAMVALUE" -> "param"
+                  [] OTHER -> role
+       IN Cat([i \in DOMAIN t.c |-> NsOccs(t.c[i], r)])
+CoinPairs(t) ==
+  LET o == NsOccs(t, "path") IN
+  {{o[p[1]].role, o[p[2]].role} :
+     p \in {q \in (DOMAIN o) \X (DOMAIN o) :
+              q[1] < q[2] /\ o[q[1]].ns = o[q[2]].ns}}
+CoinClasses == {"single", "distinct", "same"}
+Coincidence(t) ==
+  IF Len(NsOccs(t, "path")) <= 1 THEN "single"
+  ELSE IF CoinPairs(t) = {} THEN "distinct" ELSE "same"
+(* the role pairs the case space has to reach *)
+CoinRolePairs == {{"target", "key"}, {"target", "prop"}, {"target", "param"},
+                  {"path", "key"}, {"path", "prop"},
+                  {"key"}, {"prop"}, {"param"}, {"key", "prop"}}
+
+(* regression "ns_shared": one LOCALNAMESPACEPATH element per namespace,    *)
+(* shared by everything that is built (a cache in front of the three places  *)
+(* that build it).  Appending a DOM node that already has a parent MOVES it:  *)
+(* of the elements that should carry the same namespace only the one whose   *)
+(* owner (the ...PATH / IMETHODCALL element it is built for; NAMESPACEPATH   *)
+(* is built together with its owner) is built LAST keeps it.  Builders work  *)
+(* bottom-up and left to right: owner b is built after owner a iff b is an   *)
+(* ancestor of a, or b follows a in document order.                          *)
+RECURSIVE NsAt(_, _, _)
+NsAt(t, p, own) ==
+  IF t.t = "LOCALNAMESPACEPATH"
+  THEN {[p |-> p, own |-> own,
+         ns |-> [i \in DOMAIN t.c |-> AttrVal(t.c[i], "NAME")]]}
+  ELSE UNION {NsAt(t.c[i], Append(p, i),
+                   IF t.t = "NAMESPACEPATH" THEN own ELSE p) : i \in DOMAIN t.c}
+BuiltAfter(b, a) ==      \* owner paths (sequences of child indices)
+  LET n == IF Len(a) < Len(b) THEN Len(a) ELSE Len(b)
+      D == {i \in 1..n : a[i] # b[i]} IN
+  IF D = {} THEN Len(b) < Len(a)
+  ELSE b[CHOOSE i \in D : \A j \in D : i <= j] > a[CHOOSE i \in D : \A j \in D : i <= j]
+RECURSIVE DropAt(_, _, _)
+DropAt(t, p, D) ==
+  LET keep == SelectSeq([i \in DOMAIN t.c |-> i],
+                        LAMBDA i : Append(p, i) \notin D) IN
+  El(t.t, t.a,
+     [j \in DOMAIN keep |-> DropAt(t.c[keep[j]], Append(p, keep[j]), D)], t.x)
+SharedNs(t) ==
+  LET occ == NsAt(t, <<>>, <<>>)
+      D == {a.p : a \in {a \in occ : \E b \in occ :
+                           b.p # a.p /\ b.ns = a.ns /\ BuiltAfter(b.own, a.own)}}
+  IN DropAt(t, <<>>, D)
+
 (* ---- all operations ---------------------------------------------------------------------- *)
 (* regression "ns_drop_empty": every LOCALNAMESPACEPATH written by          *)
 (* tocimxml() of a name loses its empty components; the one _imethodcall    *)
@@ -816,7 +905,9 @@ ImplReq0(c, Variant) ==
 ImplReq(c, Variant) ==
   LET r == ImplReq0(c, Variant) IN
   IF "ns_drop_empty" \in Variant /\ r.emit
-  THEN [r EXCEPT !.tree = DropEmptyNs(r.tree, FALSE)] ELSE r
+  THEN [r EXCEPT !.tree = DropEmptyNs(r.tree, FALSE)]
+  ELSE IF "ns_shared" \in Variant /\ r.emit
+  THEN [r EXCEPT !.tree = SharedNs(r.tree)] ELSE r
 
 (* ---- the case space (WireOps_Gen) --------------------------------------------------------- *)
 (* Every dimension (parameter, `namespace`, default namespace, pull mode)    *)
@@ -824,12 +915,14 @@ ImplReq(c, Variant) ==
 (* at most K dimensions leave their base value (K = 2: every pair of         *)
 (* parameter values meets in some request).                                  *)
 KbShapes == {<<>>, <<"s">>, <<"c16">>, <<"dt">>, <<"b">>, <<"u8">>, <<"s64">>,
-             <<"r32">>, <<"n">>, <<"s", "u8">>, <<"n", "ref", "b">>}
+             <<"r32">>, <<"n">>, <<"s", "u8">>, <<"n", "ref", "b">>,
+             <<"refl", "refh">>}       \* two reference keys in one namespace
               \cup {<<sh>> : sh \in InstRefShapes}
 BaseKb == <<"s">>
 
 InstContents ==
-  {<<sh>> : sh \in PropShapes} \cup {<<>>, <<"s", "as", "ref">>, <<"ei", "anull">>}
+  {<<sh>> : sh \in PropShapes} \cup {<<>>, <<"s", "as", "ref">>, <<"ei", "anull">>,
+                                     <<"refl", "refcl", "s">>}  \* one namespace
 
 ClassMethods ==
   {<<"m">>, <<"m+">>, <<"mq">>, <<"m", "p", "pr", "pa", "pra">>}
@@ -865,6 +958,10 @@ InstNameOpts ==
     \cup {Arg("in_ns", <<"n", "ref", "b">>, <<>>, <<>>)}
     \cup {Arg("in_ns", BaseKb, <<>>, <<x>>) : x \in NsFlags}
     \cup {Arg("in_ns_h", BaseKb, <<>>, <<"nse">>)}
+    (* the path of an association instance as a server returns it: the     *)
+    (* path and its reference keys lie in one namespace                     *)
+    \cup {Arg("in_ns", <<"reflo">>, <<>>, <<>>),
+          Arg("in_ns_h", <<"refho", "reflo">>, <<>>, <<>>)}
 
 OptsOf(p) ==
   CASE p.k = "bool" -> {A0("t"), A0("f")}
@@ -887,14 +984,17 @@ OptsOf(p) ==
             \cup {Arg("nopath", <<>>, <<"s">>, <<q>>) : q \in {"q", "qfl"}}
             \cup {Arg(f, BaseKb, <<"s">>, <<>>) : f \in InstForms}
             \cup {Arg("in_ns", BaseKb, <<"s">>, <<x>>) : x \in NsFlags}
-            \cup {Arg("in_ns", <<"n", "ref", "b">>, <<"s", "as", "ref">>, <<"q">>)})
+            \cup {Arg("in_ns", <<"n", "ref", "b">>, <<"s", "as", "ref">>, <<"q">>)}
+            (* an association instance within one namespace *)
+            \cup {Arg("in_ns", <<"reflo">>, <<"reflo", "refho">>, <<>>)})
            \ {BaseOf(p)}
     [] p.k = "minst" ->
          ({Arg("in", BaseKb, pr, <<>>) : pr \in InstContents}
             \cup {Arg(f, BaseKb, <<"s">>, <<>>) : f \in InstForms \ {"in"}}
             \cup {Arg("in_ns", BaseKb, <<"s">>, <<x>>) : x \in NsFlags}
             \cup {Arg("in", kb, <<"s">>, <<>>) : kb \in KbShapes}
-            \cup {Arg("in_ns_h", <<"n", "ref", "b">>, <<"s", "as", "ref">>, <<"q">>)})
+            \cup {Arg("in_ns_h", <<"n", "ref", "b">>, <<"s", "as", "ref">>, <<"q">>)}
+            \cup {Arg("in_ns", <<"reflo">>, <<"reflo", "s">>, <<>>)})
            \ {BaseOf(p)}
     [] p.k = "cls" ->
          {Arg("cls", <<>>, pr, <<>>) : pr \in InstContents \ {<<>>}}
@@ -991,7 +1091,8 @@ ObjCases0 ==
         f \in InstForms, x \in {<<>>, <<"nse">>, <<"nsg">>, <<"fn">>},
         ign \in NameIgnSeqs}
   \cup {ObjCase("iname", f, kb, <<>>, <<>>, ign) :
-        f \in InstForms, kb \in ObjRefKbs \cup {<<>>, <<"n", "ref", "b">>},
+        f \in InstForms,
+        kb \in ObjRefKbs \cup {<<>>, <<"n", "ref", "b">>, <<"refl", "refh">>},
         ign \in NameIgnSeqs}
   \cup {ObjCase("cname", f, <<>>, <<>>, x, ign) :
         f \in ClassForms, x \in {<<>>, <<"nse">>, <<"nsg">>, <<"fn">>},
@@ -1008,6 +1109,10 @@ ObjCases0 ==
         ign \in InstIgnSeqs}
   \cup {ObjCase("inst", f, <<"n", "refhdo", "b">>, <<"s", "as", "refco">>,
                 <<"q">>, ign) : f \in InstForms, ign \in InstIgnSeqs}
+  (* an association instance within one namespace: path, reference key and  *)
+  (* reference properties coincide                                          *)
+  \cup {ObjCase("inst", f, <<"reflo">>, <<"refho", "reflo", "s">>, <<>>, ign) :
+        f \in InstForms, ign \in InstIgnSeqs}
   (* classes: the path is never written, whatever its form *)
   \cup {ObjCase("class", f, <<>>, pr, x, <<>>) :
         f \in ClassForms \cup {"nopath"},
@@ -1035,7 +1140,8 @@ ObjTree(c, V) ==
     [] c.kind = "param" -> MParamTree("mp1", "cp", c.pr[1])
 
 ObjDoc(c, V) ==
-  [emit |-> TRUE, tree |-> ObjTree(c, V),
+  [emit |-> TRUE,
+   tree |-> IF "ns_shared" \in V THEN SharedNs(ObjTree(c, V)) ELSE ObjTree(c, V),
    hdr |-> [method |-> "", form |-> "none", ns |-> <<>>, cls |-> "",
             keys |-> <<>>]]
 
